@@ -114,7 +114,11 @@ func (m *MainLoop) run(ctx context.Context) {
 			shutdown = true
 
 		case message := <-m.messagesChannel:
-			parsedMessage := interfaces.ToConsensusMessage(message)
+			parsedMessage := parseConsensusMessage(message)
+			if parsedMessage == nil {
+				m.logger.Info("LHFLOW LHMSG MAINLOOP RECEIVED MALFORMED MESSAGE - IGNORED")
+				continue
+			}
 
 			m.logger.Debug("LHFLOW LHMSG MAINLOOP RECEIVED %v from %v for H=%d V=%d", parsedMessage.MessageType(), parsedMessage.SenderMemberId(), parsedMessage.BlockHeight(), parsedMessage.View())
 
@@ -223,11 +227,35 @@ func (m *MainLoop) sendUpdateMessageNonBlocking(ctx context.Context, blockWithPr
 	}
 }
 
+// parseConsensusMessage reads a raw message as the loops need it. The content bytes come from the network: if they
+// do not hold one of the five message kinds, or the readers panic on them, the result is nil.
+func parseConsensusMessage(message *interfaces.ConsensusRawMessage) (parsed interfaces.ConsensusMessage) {
+	defer func() {
+		if r := recover(); r != nil {
+			parsed = nil
+		}
+	}()
+	if message == nil {
+		return nil
+	}
+	parsed = interfaces.ToConsensusMessage(message)
+	if parsed == nil {
+		return nil
+	}
+	_, _, _, _ = parsed.MessageType(), parsed.SenderMemberId(), parsed.BlockHeight(), parsed.View()
+	return parsed
+}
+
 // Used by orbs-network-go
-func GetMemberIdsFromBlockProof(blockProofBytes []byte) ([]primitives.MemberId, error) {
+func GetMemberIdsFromBlockProof(blockProofBytes []byte) (memberIds []primitives.MemberId, err error) {
 	if blockProofBytes == nil || len(blockProofBytes) == 0 {
 		return nil, errors.Errorf("GetMemberIdsFromBlockProof: nil blockProof - cannot deduce members locally")
 	}
+	defer func() {
+		if r := recover(); r != nil {
+			memberIds, err = nil, errors.Errorf("GetMemberIdsFromBlockProof: malformed blockProof: %v", r)
+		}
+	}()
 	blockProof := protocol.BlockProofReader(blockProofBytes)
 	sendersIterator := blockProof.NodesIterator()
 	committeeMembers := make([]primitives.MemberId, 0)
